@@ -238,5 +238,103 @@ theorem esum_perm (U : List κ) {vs ws : List Nat} (h : vs.Perm ws) :
   | swap a b l => intro F σ; exact esum_swap U b a l F σ
   | trans _ _ ih1 ih2 => intro F σ; rw [ih1, ih2]
 
+/-- `esum` only looks at assignments whose summed variables range over `U` -/
+theorem esum_eq_zero_of_range (U : List κ) : ∀ (vs : List Nat) (F : (Nat → κ) → Int) (σ0 : Nat → κ),
+    (∀ σ, (∀ w, w ∈ vs → σ w ∈ U) → F σ = 0) → esum U vs F σ0 = 0
+  | [], F, σ0, h => h σ0 (fun _ hw => by cases hw)
+  | v :: vs, F, σ0, h => by
+    simp only [esum]
+    apply sum_map_zero
+    intro c hc
+    by_cases hv : v ∈ vs
+    · apply esum_eq_zero_of_range U vs F
+      intro σ hσ
+      apply h
+      intro w hw
+      rcases List.mem_cons.1 hw with e | e
+      · exact e ▸ hσ v hv
+      · exact hσ w e
+    · -- v is not summed again: it keeps the value c ∈ U
+      rw [esum_congr U vs F (fun σ => if σ v = c then F σ else 0) (upd σ0 v c)
+        (fun σ hσ => by rw [if_pos (by rw [hσ v hv, upd_same])])]
+      apply esum_eq_zero_of_range U vs
+      intro σ hσ
+      by_cases hσv : σ v = c
+      · rw [if_pos hσv]
+        apply h
+        intro w hw
+        rcases List.mem_cons.1 hw with e | e
+        · rw [e, hσv]; exact hc
+        · exact hσ w e
+      · rw [if_neg hσv]
+
+/-- **indicator form = point-wise form**: summing over all variables the terms whose output point is
+    `q` is the same as fixing the output variables to `q` and summing the others — for points inside
+    the universe -/
+theorem esum_eq_dsum (U : List κ) (hU : Asc U) (F : (Nat → κ) → Int) :
+    ∀ (order zr : List Nat) (q : List κ) (σ0 : Nat → κ), order.Nodup → zr.Sublist order →
+      q.length = zr.length → (∀ x ∈ q, x ∈ U) →
+      esum U order (fun σ => if zr.map σ = q then F σ else 0) σ0 = dsum U order zr q F σ0
+  | [], zr, q, σ0, _, hz, hq, _ => by
+    have : zr = [] := List.eq_nil_of_sublist_nil hz
+    subst this
+    have : q = [] := List.length_eq_zero_iff.1 hq
+    subst this
+    simp [esum, dsum]
+  | v :: vs, [], q, σ0, hnd, _, hq, hqU => by
+    have : q = [] := List.length_eq_zero_iff.1 hq
+    subst this
+    simp only [esum, dsum]
+    apply sum_map_congr
+    intro c _
+    exact esum_eq_dsum U hU F vs [] [] (upd σ0 v c) (List.nodup_cons.1 hnd).2 (List.nil_sublist _) rfl hqU
+  | v :: vs, zv :: zr, [], σ0, _, _, hq, _ => by cases hq
+  | v :: vs, zv :: zr, qc :: q, σ0, hnd, hz, hq, hqU => by
+    have hvs : vs.Nodup := (List.nodup_cons.1 hnd).2
+    have hv : v ∉ vs := (List.nodup_cons.1 hnd).1
+    have hq' : q.length = zr.length := by simpa using hq
+    by_cases hzv : zv = v
+    · subst hzv
+      have hz' : zr.Sublist vs := List.cons_sublist_cons.1 hz
+      simp only [esum, dsum, if_true]
+      rw [sum_single _ U hU qc (hqU qc (List.mem_cons_self ..))]
+      · rw [← esum_eq_dsum U hU F vs zr q (upd σ0 zv qc) hvs hz' hq'
+          (fun x hx => hqU x (List.mem_cons_of_mem _ hx))]
+        apply esum_congr
+        intro σ hσ
+        have : σ zv = qc := by rw [hσ zv hv, upd_same]
+        simp [this]
+      · intro x _ hx
+        apply esum_eq_zero
+        intro σ hσ
+        have : σ zv = x := by rw [hσ zv hv, upd_same]
+        have hne : ¬ ((zv :: zr).map σ = qc :: q) := by
+          intro h
+          simp only [List.map_cons, List.cons.injEq] at h
+          exact hx (this ▸ h.1)
+        exact if_neg hne
+    · have hz' : (zv :: zr).Sublist vs := by
+        rcases List.sublist_cons_iff.1 hz with h | ⟨r, hr, _⟩
+        · exact h
+        · exact absurd (List.cons.inj hr).1 hzv
+      simp only [esum, dsum, hzv, if_false]
+      apply sum_map_congr
+      intro c _
+      exact esum_eq_dsum U hU F vs (zv :: zr) (qc :: q) (upd σ0 v c) hvs hz' hq hqU
+
+/-- outside the universe the dense result is zero -/
+theorem esum_outside (U : List κ) (F : (Nat → κ) → Int) (order zr : List Nat) (q : List κ) (σ0 : Nat → κ)
+    (hz : ∀ w ∈ zr, w ∈ order) (hq : ∃ x ∈ q, x ∉ U) :
+    esum U order (fun σ => if zr.map σ = q then F σ else 0) σ0 = 0 := by
+  apply esum_eq_zero_of_range
+  intro σ hσ
+  obtain ⟨x, hx, hxU⟩ := hq
+  have : ¬ (zr.map σ = q) := by
+    intro h
+    rw [← h] at hx
+    obtain ⟨w, hw, rfl⟩ := List.mem_map.1 hx
+    exact hxU (hσ w (hz w hw))
+  exact if_neg this
+
 end
 end Ft.C06
